@@ -38,6 +38,7 @@ type Case struct {
 	Around        bool           `json:"around,omitempty"`     // install the universal field interceptor (universal.Around)
 	Exts          []ExtSpec      `json:"exts,omitempty"`       // C16: handler extensions to register, in this order (c16ext.go)
 	Extensions    map[string]any `json:"extensions,omitempty"` // the request's `extensions` (RawParams.Extensions)
+	SchemaSDL     string         `json:"schemaSDL,omitempty"`  // C16: run this case on a server built with Config.Schema = this SDL (c16schema.go)
 }
 
 type ErrOut struct {
@@ -420,9 +421,20 @@ func Main(newES func(bind func(stub any, directives any, complexity any)) graphq
 	profile := flag.String("profile", "c01", "generator profile")
 	maxHung := flag.Int("maxhung", 0, "stop after this many hung cases (0 = never)")
 	split := flag.Bool("split", false, "run mode: print one result per delivered subscription event")
+	override := flag.String("override", "", "C16: file with the SDL of a Config.Schema runtime override for the whole process")
 	flag.Parse()
 	u := &U{Types: types}
 	es := newES(u.Bind)
+	if *override != "" {
+		b, err := os.ReadFile(*override)
+		if err == nil {
+			es, err = OverrideES(u, string(b))
+		}
+		if err != nil {
+			fmt.Fprintln(os.Stderr, "override:", err)
+			os.Exit(2)
+		}
+	}
 	out := bufio.NewWriterSize(os.Stdout, 1<<20)
 	defer out.Flush()
 	enc := json.NewEncoder(out)
@@ -535,6 +547,11 @@ func Main(newES func(bind func(stub any, directives any, complexity any)) graphq
 				if strings.HasPrefix(inv.Hook, "directive:") {
 					key = inv.Path + "@" + strings.TrimPrefix(inv.Hook, "directive:")
 					kind = []string{"error", "block", "panic"}[(i+k)%3]
+					if inv.Path == "" {
+						// an operation-level directive: the generated _queryMiddleware has no recover of its own (a panic
+						// there is the transport's to contain, like a serialization panic); error and block here
+						kind = []string{"error", "block"}[(i+k)%2]
+					}
 				}
 				fc.Plan.Overrides = map[string]Outcome{key: {Kind: kind, Msg: "FAULT:" + key}}
 				r := RunCase(es, fc)
@@ -559,7 +576,17 @@ func Main(newES func(bind func(stub any, directives any, complexity any)) graphq
 				fmt.Fprintln(os.Stderr, "bad case:", err)
 				os.Exit(2)
 			}
-			r := RunCase(es, c)
+			ces := es
+			if c.SchemaSDL != "" {
+				oes, err := OverrideES(u, c.SchemaSDL)
+				if err != nil {
+					enc.Encode(Result{ID: c.ID, Query: c.Query, Payloads: []Payload{}, Crash: "schemaSDL: " + err.Error()})
+					out.Flush()
+					continue
+				}
+				ces = oes
+			}
+			r := RunCase(ces, c)
 			if *split {
 				for _, e := range SplitEvents(r) {
 					enc.Encode(e)
@@ -697,6 +724,7 @@ type FragJSON struct {
 type DocJSON struct {
 	OpKind string     `json:"opKind"`
 	OpName string     `json:"opName,omitempty"`
+	OpDirs []string   `json:"opDirs,omitempty"` // operation-level directives other than the built-in ones, in document order
 	Sels   []SelJSON  `json:"sels"`
 	Frags  []FragJSON `json:"frags"`
 }
@@ -753,6 +781,9 @@ func DocToJSON(d *ast.QueryDocument, op *ast.OperationDefinition) *DocJSON {
 	out := &DocJSON{OpKind: string(op.Operation), OpName: op.Name, Sels: sels(op.SelectionSet), Frags: []FragJSON{}}
 	for _, f := range d.Fragments {
 		out.Frags = append(out.Frags, FragJSON{Name: f.Name, TypeCond: f.TypeCondition, Sels: sels(f.SelectionSet)})
+	}
+	for _, dd := range op.Directives {
+		out.OpDirs = append(out.OpDirs, dd.Name)
 	}
 	return out
 }
